@@ -1,23 +1,61 @@
 #!/venv/bin/python
-"""py2lean — translate a small subset of Python (straight-line integer / None / slice logic)
-from static-frame's *current* source into Lean 4 definitions.
+"""py2lean — translate a small subset of Python (integer / None / slice logic, straight-line or one
+`for` loop with accumulator state and `yield`) from static-frame's *current* source into Lean 4
+definitions.
 
 The generated definitions live in lean/SFModel/Gen/*.lean, are regenerated on every check run and
 are tied to the hand-written reference definitions by kernel-checked bridge lemmas
 (lean/SFModel/Bridge.lean).  A source change that alters a translated function therefore breaks a
-proof obligation (or the translation itself when it leaves the subset).
+proof obligation (or the translation itself when it leaves the subset: anything not listed below is
+a TranslationError, never a guess).
 
-Semantics of the subset (trusted; cross-checked by harness/sfv/props/gen_xcheck on a grid):
+Semantics of the subset (trusted; cross-checked against the real functions on a grid by
+harness/sfv/props/c04.py, cases 'sl', 'cols', 'pairs'):
   * every generated function returns `Option T`; `none` = the Python code raises
-    (IndexError on `l[0]` of an empty list, ZeroDivisionError, TypeError on None arithmetic)
+    (IndexError on `l[0]` of an empty list, ZeroDivisionError, TypeError on None arithmetic or
+    `None[0]`, UnboundLocalError on reading a local no assignment has reached)
   * ints are unbounded (`Int`), `//` is `Int.fdiv`, `%` is `Int.fmod`
-  * an expression that may be None (`slice.start/stop/step`, a local bound to one) is never given a
-    default: reading it forces a `match`, and each arm is translated with that knowledge
+  * an expression that may be None (`slice.start/stop/step`, a local declared `Optional[...]`) is never
+    given a default: reading it forces a `match`, and each arm is translated with that knowledge
     (path-sensitive typing), mirroring Python's dynamic behaviour on that path
   * `a or b` / `a and b` / `not a` in tests are short-circuit; conditional expressions are
     translated by duplicating the continuation in both arms
+  * truthiness tests (`if x`, `if not x`, operands of and/or) are defined for: None (falsy), a 2-tuple
+    (always truthy: `(0, 0)` is not empty), a list (falsy iff empty).  Truthiness of an int is outside
+    the subset.
+  * values: ints, None, slices (`slice(a, b[, c])`, `.start/.stop/.step`, `a, b, c = s.indices(n)`),
+    lists of ints (parameters: `l[0]`, `l[-1]`, `len(l)`; locals: created by a list display `[a, ...]`,
+    extended by `name.append(int)` - only a list this function created is ever appended to, and such a
+    list is never aliased: it can only be read, passed to a translated function or re-created),
+    2-tuples `(int, int)` / `(int, slice)` (display, `t[0]`, `t[1]`), `abs`, `min`, `max`
+  * `cls.f(args)` inside a classmethod, where `f` is a staticmethod / classmethod of the same class that
+    is listed EARLIER in FUNCS (so it is itself translated from the source and bridged): the call
+    becomes a `match` on the generated `Option`, `none` (the callee raised) is propagated.  Trusted:
+    `cls` is the class itself (no subclass overrides `f`).
+
+Generators (a function containing `yield`): the generated function returns `Option (List T)`, the list
+of all yielded values, `none` if the body raises at any point (the model of `list(f(...))`; values
+yielded before the exception are not observable in the model).  Shape:
+      <prelude statements>
+      for <x> | <x, y> in <the only parameter : list of ints | of (int, int)>: (exactly one loop, at top
+          <body>                                                        level, no else / break / return)
+      <epilogue statements>
+  * the loop becomes a structural recursion `<name>_loop : List _ → <state...> → List T → Option (List T)`
+    over the input list; the explicit state is one argument per local of the function, in order of
+    first assignment, followed by the list of values yielded so far (`yield v` appends to it);
+    `continue` and the end of the body are the recursive call on the rest of the list with the current
+    state, the `[]` case is the epilogue
+  * a local's type is its annotation (`tp.Optional[tp.Tuple[int, int]]` -> `Option (Int × Int)`,
+    `tp.Optional[int]`, `int`) or, without annotation, `List Int` if every assignment to it is a list
+    display; every assignment is checked against it.  A local not assigned unconditionally before the
+    loop is carried as `Option T` with `none` = unbound (reading it then is UnboundLocalError);
+    an `Optional` local must be initialised before the loop.
+  * the loop variables are not visible in the epilogue; parameters, loop variables, `cls` are never
+    assigned
 
 usage: py2lean.py [--repo /repo] [--out lean/SFModel/Gen] [--check]
+  --check: translate and compare with the file on disk without writing (rc 1 on a translation error or
+           a difference)
 """
 from __future__ import annotations
 
@@ -28,6 +66,23 @@ import sys
 import textwrap
 
 INT, OPT, NONE, SLICE, LIST, BOOL = 'Int', 'OptInt', 'NoneT', 'PySlice', 'ListInt', 'Bool'
+TUP, OPTTUP, PAIRS = 'IntPair', 'OptIntPair', 'ListIntPair'        # (int, int), Optional[(int, int)], list of (int, int)
+YPAIR, YPAIRS = 'IntSlicePair', 'ListIntSlicePair'                 # (int, slice), list of (int, slice)
+UNBOUND = 'Unbound'                                                # a local no assignment has reached
+OPT_INNER = {OPT: INT, OPTTUP: TUP}                                # Optional[T] -> T
+LIST_ELEM = {LIST: INT, PAIRS: TUP, YPAIRS: YPAIR}
+RESERVED = {'some', 'none', 'match', 'with', 'if', 'then', 'else', 'let', 'fun', 'def', 'do', 'at', 'have', 'show', 'end',
+            'open', 'in', 'from', 'by', 'where', 'Type', 'Int', 'Nat', 'List', 'Option', 'PySlice', 'true', 'false', 'min', 'max',
+            'rest_', 'out_'}
+
+
+def MAYBE(t):
+    """a local of type t that may be unbound (state of a loop): `Option t`, none = unbound"""
+    return 'Unbound?' + t
+
+
+def maybe_inner(t):
+    return t[len('Unbound?'):] if t.startswith('Unbound?') else None
 
 
 class TranslationError(Exception):
@@ -35,13 +90,16 @@ class TranslationError(Exception):
 
 
 # (module file, class or None, function, parameter types, return type, lean name)
+# order matters: a function may only call (`cls.f(...)`) functions listed before it
 FUNCS = [
     ('static_frame/core/util.py', None, 'slice_to_ascending_slice',
-     {'key': SLICE, 'size': INT}, SLICE),
+     {'key': SLICE, 'size': INT}, SLICE, 'slice_to_ascending_slice'),
     ('static_frame/core/util.py', None, 'slice_to_inclusive_slice',
-     {'key': SLICE, 'offset': INT}, SLICE),
+     {'key': SLICE, 'offset': INT}, SLICE, 'slice_to_inclusive_slice'),
     ('static_frame/core/type_blocks.py', 'TypeBlocks', '_cols_to_slice',
-     {'indices': LIST}, SLICE),
+     {'indices': LIST}, SLICE, '_cols_to_slice'),
+    ('static_frame/core/type_blocks.py', 'TypeBlocks', '_indices_to_contiguous_pairs',
+     {'indices': PAIRS}, YPAIRS, 'indices_to_contiguous_pairs'),
 ]
 
 # module-level constants of static_frame.core.util the translated functions may name; their values are
@@ -53,7 +111,15 @@ MODULE_CONSTANTS = {
 }
 CONSTANT_SOURCE = {'EMPTY_SLICE': 'slice(0, 0)', 'NULL_SLICE': 'slice(None)', 'UNIT_SLICE': 'slice(0, 1)'}
 
-LEAN_TY = {INT: 'Int', SLICE: 'PySlice', LIST: 'List Int', BOOL: 'Bool'}
+LEAN_TY = {INT: 'Int', SLICE: 'PySlice', LIST: 'List Int', BOOL: 'Bool', OPT: 'Option Int', TUP: 'Int × Int',
+           OPTTUP: 'Option (Int × Int)', PAIRS: 'List (Int × Int)', YPAIR: 'Int × PySlice', YPAIRS: 'List (Int × PySlice)'}
+
+
+def lean_ty(t, paren=False):
+    """Lean type of a type tag; `paren`: as an argument of a type constructor"""
+    inner = maybe_inner(t)
+    r = ('Option ' + lean_ty(inner, True)) if inner is not None else LEAN_TY[t]
+    return f'({r})' if paren and ' ' in r else r
 
 
 class Env:
@@ -74,10 +140,21 @@ def ind(s, n=2):
     return textwrap.indent(s, ' ' * n)
 
 
+OUT = '$out'      # pseudo-variable of a generator: the list of values yielded so far (not a Python identifier)
+
+
 class Translator:
-    def __init__(self, ret_type):
+    def __init__(self, ret_type, resolver=None):
         self.ret_type = ret_type
         self.slice_fields = {}
+        self.resolver = resolver      # (receiver name, method name) -> (lean name, [parameter types], return type)
+        # generator mode (set by translate_generator)
+        self.locals = None            # declared type of every local of a generator; None: plain function
+        self.in_loop = False
+        self.on_end = self.fall_off   # what the end of the current statement list means
+
+    def fall_off(self, env):
+        raise TranslationError('function may fall off the end (returns None)')
 
     # ---- expressions (CPS) -------------------------------------------------
     def tx(self, e, env, k):
@@ -99,10 +176,14 @@ class Translator:
                 t, ty = MODULE_CONSTANTS[e.id]
                 return k(t, ty, env)
             if e.id not in env.vars:
+                if self.locals is not None and e.id in self.locals:
+                    return 'none  -- UnboundLocalError'
                 raise TranslationError(f'unknown name {e.id}')
             t, ty = env.vars[e.id]
-            if ty == OPT:
-                return self.force_opt(t, key, env, k)
+            if ty in OPT_INNER:
+                return self.force_opt(t, key, env, k, OPT_INNER[ty])
+            if maybe_inner(ty) is not None:
+                return self.force_bound(t, key, env, k, maybe_inner(ty))
             return k(t, ty, env)
         if isinstance(e, ast.Attribute):
             return self.tx(e.value, env, lambda t, ty, env2: self.attr(e, t, ty, key, env2, k))
@@ -118,6 +199,10 @@ class Translator:
             return self.tx(e.value, env, lambda t, ty, e1: self.subscript(e, t, ty, e1, k))
         if isinstance(e, ast.Call) and isinstance(e.func, ast.Name):
             return self.call(e, env, k)
+        if isinstance(e, ast.Call) and isinstance(e.func, ast.Attribute) and isinstance(e.func.value, ast.Name):
+            return self.method_call(e, env, k)
+        if isinstance(e, (ast.Tuple, ast.List)) and isinstance(e.ctx, ast.Load):
+            return self.display(e, env, k)
         raise TranslationError(f'expression outside subset: {ast.unparse(e)}')
 
     def need_int(self, ty, cont):
@@ -127,14 +212,68 @@ class Translator:
             return 'none  -- TypeError: arithmetic on None'
         raise TranslationError(f'integer expected, got {ty}')
 
-    def force_opt(self, term, key, env, k):
+    def force_opt(self, term, key, env, k, inner=INT):
         v = env.fresh('v')
         en, es = env.copy(), env.copy()
         en.narrow[key] = ('none', NONE)
-        es.narrow[key] = (v, INT)
+        es.narrow[key] = (v, inner)
         return (f'match {term} with\n'
                 f'| none =>\n{ind(k("none", NONE, en))}\n'
-                f'| some {v} =>\n{ind(k(v, INT, es))}')
+                f'| some {v} =>\n{ind(k(v, inner, es))}')
+
+    def force_bound(self, term, key, env, k, inner):
+        """read a local that may be unbound (loop state `Option inner`, none = unbound)"""
+        v = env.fresh('v')
+        es = env.copy()
+        es.narrow[key] = (v, inner)
+        return f'match {term} with\n| none => none  -- UnboundLocalError\n| some {v} =>\n' + ind(k(v, inner, es))
+
+    def display(self, e, env, k):
+        """tuple display (a, b) : (int, int) | (int, slice); list display [a, ...] of ints"""
+        def many(i, acc, env_i):
+            if i == len(e.elts):
+                return finish(acc, env_i)
+            if isinstance(e.elts[i], ast.Starred):
+                raise TranslationError(f'starred element: {ast.unparse(e)}')
+            return self.tx(e.elts[i], env_i, lambda t, ty, e2: many(i + 1, acc + [(t, ty)], e2))
+
+        def finish(acc, env_f):
+            tys = [ty for _, ty in acc]
+            if isinstance(e, ast.Tuple):
+                if tys == [INT, INT]:
+                    return k(f'({acc[0][0]}, {acc[1][0]})', TUP, env_f)
+                if tys == [INT, SLICE]:
+                    return k(f'({acc[0][0]}, {acc[1][0]})', YPAIR, env_f)
+                raise TranslationError(f'tuple display of {tys}: {ast.unparse(e)}')
+            if any(ty != INT for ty in tys):
+                raise TranslationError(f'list display of {tys}: {ast.unparse(e)}')
+            if not acc:
+                return k('([] : List Int)', LIST, env_f)
+            return k('[' + ', '.join(t for t, _ in acc) + ']', LIST, env_f)
+        return many(0, [], env)
+
+    def method_call(self, e, env, k):
+        """cls.f(args): f a translated static / class method of the same class; none (f raised) is propagated"""
+        recv, meth = e.func.value.id, e.func.attr
+        if e.keywords or any(isinstance(a, ast.Starred) for a in e.args):
+            raise TranslationError(f'keyword / starred arguments: {ast.unparse(e)}')
+        if self.resolver is None or recv in env.vars:
+            raise TranslationError(f'call outside subset: {ast.unparse(e)}')
+        lean_name, ptys, rty = self.resolver(recv, meth)
+
+        def many(i, acc, env_i):
+            if i == len(e.args):
+                return finish(acc, env_i)
+            return self.tx(e.args[i], env_i, lambda t, ty, e2: many(i + 1, acc + [(t, ty)], e2))
+
+        def finish(acc, env_f):
+            if [ty for _, ty in acc] != list(ptys):
+                raise TranslationError(f'{ast.unparse(e)}: argument types {[ty for _, ty in acc]}, {meth} is translated for {list(ptys)}')
+            r = env_f.fresh('r')
+            e2 = env_f.copy()
+            return (f'match {lean_name} ' + ' '.join(t for t, _ in acc) + f' with\n| none => none  -- {meth} raised\n| some {r} =>\n'
+                    + ind(k(r, rty, e2)))
+        return many(0, [], env)
 
     def attr(self, e, t, ty, key, env, k):
         if ty == SLICE and e.attr in ('start', 'stop', 'step'):
@@ -158,9 +297,15 @@ class Translator:
         raise TranslationError(f'operator {op.__class__.__name__}')
 
     def subscript(self, e, t, ty, env, k):
+        idx = e.slice
+        if ty == NONE:
+            return 'none  -- TypeError: None is not subscriptable'
+        if ty in (TUP, YPAIR):
+            if isinstance(idx, ast.Constant) and idx.value in (0, 1) and not isinstance(idx.value, bool):
+                return k(f'{t}.{idx.value + 1}', INT if (ty == TUP or idx.value == 0) else SLICE, env)
+            raise TranslationError(f'subscript outside subset: {ast.unparse(e)}')
         if ty != LIST:
             raise TranslationError(f'subscript on {ty}')
-        idx = e.slice
         if isinstance(idx, ast.Constant) and idx.value == 0:
             fn = 'head?'
         elif isinstance(idx, ast.UnaryOp) and isinstance(idx.op, ast.USub) and isinstance(idx.operand, ast.Constant) and idx.operand.value == 1:
@@ -257,16 +402,85 @@ class Translator:
                     raise TranslationError(f'comparison of {ta}, {tb}')
                 return f'if {a} {sym} {b} then\n{ind(kt(e2.copy()))}\nelse\n{ind(kf(e2.copy()))}'
             return self.tx(left, env, lambda a, ta, e1: self.tx(right, e1, lambda b, tb, e2: cmp(a, ta, b, tb, e2)))
+        if isinstance(test, (ast.Name, ast.Subscript, ast.Attribute)):
+            # truthiness of a value: None and the empty list are falsy, a 2-tuple is never empty (hence truthy)
+            def truth(t, ty, e2):
+                if ty == NONE:
+                    return kf(e2)
+                if ty in (TUP, YPAIR):
+                    return kt(e2)
+                if ty in LIST_ELEM:
+                    return f'if {t}.isEmpty then\n{ind(kf(e2.copy()))}\nelse\n{ind(kt(e2.copy()))}'
+                raise TranslationError(f'truthiness of {ty}: {ast.unparse(test)}')
+            return self.tx(test, env, truth)
         raise TranslationError(f'test outside subset: {ast.unparse(test)}')
 
     # ---- statements -----------------------------------------------------------
+    def check_assign(self, name, ty):
+        """generator mode: every assignment agrees with the declared type of the local"""
+        if name in ('cls', 'self'):
+            raise TranslationError(f'assignment to {name}')
+        if self.locals is None:
+            return
+        d = self.locals.get(name)
+        if d is None:
+            raise TranslationError(f'assignment to {name}, which is not a local (parameter / loop variable)')
+        if not (ty == d or (d in OPT_INNER and ty in (NONE, OPT_INNER[d]))):
+            raise TranslationError(f'{name} is declared {d}, assigned {ty}')
+
     def block(self, stmts, env):
         if not stmts:
-            raise TranslationError('function may fall off the end (returns None)')
+            return self.on_end(env)
         s, rest = stmts[0], stmts[1:]
         if isinstance(s, ast.Expr) and isinstance(s.value, ast.Constant) and isinstance(s.value.value, str):
             return self.block(rest, env)
+        if isinstance(s, ast.AnnAssign) and isinstance(s.target, ast.Name) and s.value is not None and s.simple:
+            # the annotation was read by declared_locals; the assignment is checked against it by check_assign
+            if self.locals is None:
+                raise TranslationError(f'annotated local outside a generator: {ast.unparse(s)[:80]}')
+            s = ast.Assign(targets=[ast.Name(id=s.target.id, ctx=ast.Store())], value=s.value)
+        if isinstance(s, ast.Continue):
+            if not self.in_loop:
+                raise TranslationError('continue outside the loop')
+            return self.on_end(env)      # the rest of the body is not executed
+        if isinstance(s, ast.Expr) and isinstance(s.value, ast.Yield):
+            if self.locals is None or s.value.value is None:
+                raise TranslationError(f'statement outside subset: {ast.unparse(s)[:80]}')
+
+            def emit(t, ty, e2):
+                if ty != LIST_ELEM[self.ret_type]:
+                    raise TranslationError(f'yield of {ty}, expected {LIST_ELEM[self.ret_type]}')
+                e3 = e2.copy()
+                out, _ = e3.vars[OUT]
+                ln = e3.fresh('out')
+                e3.vars[OUT] = (ln, self.ret_type)
+                return f'let {ln} := ({out} ++ [{t}])\n' + self.block(rest, e3)
+            return self.tx(s.value.value, env, emit)
+        if (isinstance(s, ast.Expr) and isinstance(s.value, ast.Call) and isinstance(s.value.func, ast.Attribute)
+                and s.value.func.attr == 'append' and isinstance(s.value.func.value, ast.Name)
+                and len(s.value.args) == 1 and not s.value.keywords and not isinstance(s.value.args[0], ast.Starred)):
+            # <local list>.append(<int>): only a list created by a list display of this function (never aliased)
+            name = s.value.func.value.id
+            if self.locals is None or self.locals.get(name) != LIST:
+                raise TranslationError(f'append to {name}, which is not a list created by this function')
+
+            def with_list(l, tl, e1):
+                if tl != LIST:
+                    raise TranslationError(f'append to {tl}')
+
+                def with_item(x, tx_, e2):
+                    if tx_ != INT:
+                        raise TranslationError(f'append of {tx_}')
+                    e3 = e2.copy()
+                    e3.narrow = {kk: vv for kk, vv in e3.narrow.items() if f"id='{name}'" not in kk}
+                    ln = e3.fresh(name)
+                    e3.vars[name] = (ln, LIST)
+                    return f'let {ln} := ({l} ++ [{x}])\n' + self.block(rest, e3)
+                return self.tx(s.value.args[0], e1, with_item)
+            return self.tx(s.value.func.value, env, with_list)
         if isinstance(s, ast.Return):
+            if self.locals is not None:
+                raise TranslationError('return in a generator')
             if s.value is None:
                 raise TranslationError('bare return')
             def fin(t, ty, e2):
@@ -278,6 +492,7 @@ class Translator:
             name = s.targets[0].id
 
             def bind(t, ty, e2):
+                self.check_assign(name, ty)
                 e3 = e2.copy()
                 # drop narrowings that mention the re-assigned name
                 e3.narrow = {kk: vv for kk, vv in e3.narrow.items() if f"id='{name}'" not in kk}
@@ -297,6 +512,8 @@ class Translator:
                 and s.value.func.attr == 'indices' and len(s.value.args) == 1 and not s.value.keywords):
             # a, b, c = <slice>.indices(<int>)  -- CPython PySlice_AdjustIndices (ValueError on step 0 / negative length)
             names = [x.id for x in s.targets[0].elts]
+            for name in names:
+                self.check_assign(name, INT)
 
             def with_slice(t, ty, e1):
                 if ty != SLICE:
@@ -339,17 +556,215 @@ def find_func(tree, cls, name):
     raise TranslationError(f'function {name} not found')
 
 
-def translate_function(src, cls, name, ptypes, rtype):
-    fn = find_func(ast.parse(src), cls, name)
-    params = [a.arg for a in fn.args.args if a.arg not in ('self', 'cls')]
-    if list(ptypes) != params:
-        raise TranslationError(f'{name}: parameters {params} differ from expected {list(ptypes)}')
+def method_kind(fn):
+    kinds = [d.id for d in fn.decorator_list if isinstance(d, ast.Name)]
+    if len(kinds) != len(fn.decorator_list) or any(k not in ('staticmethod', 'classmethod') for k in kinds) or len(kinds) > 1:
+        raise TranslationError(f'{fn.name}: decorators outside subset')
+    return kinds[0] if kinds else 'plain'
+
+
+def parse_annotation(a):
+    """type tag of a local's annotation"""
+    txt = ast.unparse(a).replace('typing.', '').replace('tp.', '').replace(' ', '')
+    table = {'int': INT, 'Optional[int]': OPT, 'Optional[Tuple[int,int]]': OPTTUP}
+    if txt not in table:
+        raise TranslationError(f'annotation outside subset: {ast.unparse(a)}')
+    return table[txt]
+
+
+def declared_locals(fn, fixed):
+    """name -> declared type of every name the function assigns, in order of first assignment.
+    `fixed`: names that must never be assigned (parameters, loop variables)."""
+    ann, assigned, values = {}, [], {}
+
+    def note(name, value):
+        if name in fixed:
+            raise TranslationError(f'assignment to {name} (parameter / loop variable)')
+        if name in RESERVED:
+            raise TranslationError(f'local named {name}')
+        if name not in assigned:
+            assigned.append(name)
+        values.setdefault(name, []).append(value)
+
+    for n in ast.walk(fn):
+        if isinstance(n, ast.AnnAssign):
+            if not isinstance(n.target, ast.Name) or n.value is None:
+                raise TranslationError(f'statement outside subset: {ast.unparse(n)[:80]}')
+            t = parse_annotation(n.annotation)
+            if ann.setdefault(n.target.id, t) != t:
+                raise TranslationError(f'{n.target.id}: conflicting annotations')
+        elif isinstance(n, (ast.NamedExpr, ast.AugAssign, ast.Delete, ast.Global, ast.Nonlocal, ast.With, ast.Import, ast.ImportFrom,
+                            ast.Try, ast.While, ast.FunctionDef, ast.Lambda, ast.ClassDef, ast.ListComp, ast.GeneratorExp)) and n is not fn:
+            raise TranslationError(f'statement outside subset: {ast.unparse(n)[:80]}')
+    # order of first assignment = source order (ast.walk is breadth-first: sort by position)
+    stores = sorted((n for n in ast.walk(fn) if isinstance(n, (ast.Assign, ast.AnnAssign))), key=lambda n: (n.lineno, n.col_offset))
+    for n in stores:
+        targets = [n.target] if isinstance(n, ast.AnnAssign) else n.targets
+        for t in targets:
+            if isinstance(t, ast.Name):
+                note(t.id, n.value)
+            elif isinstance(t, ast.Tuple) and all(isinstance(x, ast.Name) for x in t.elts):
+                for x in t.elts:
+                    note(x.id, None)
+            else:
+                raise TranslationError(f'assignment target outside subset: {ast.unparse(n)[:80]}')
+    out = {}
+    for name in assigned:
+        if name in ann:
+            out[name] = ann[name]
+        elif all(isinstance(v, ast.List) for v in values[name]):
+            out[name] = LIST         # every assignment creates a fresh list: appending to it is not visible elsewhere
+        elif all(v is None for v in values[name]):
+            out[name] = INT          # a, b, c = s.indices(n)
+        else:
+            raise TranslationError(f'local {name}: no annotation and not only assigned list displays')
+    return out
+
+
+def translate_generator(fn, tr, params, ptypes, rtype, lean_name):
+    """<prelude>; for ... in <parameter>: <body>; <epilogue>  with yields  ->  (<name>_loop, <name>)"""
+    if rtype not in LIST_ELEM:
+        raise TranslationError(f'generator with return type {rtype}')
+    loops = [i for i, st in enumerate(fn.body) if isinstance(st, ast.For)]
+    if len(loops) != 1:
+        raise TranslationError(f'{len(loops)} top-level for loops (exactly one expected)')
+    loop = fn.body[loops[0]]
+    prelude, epilogue = list(fn.body[:loops[0]]), list(fn.body[loops[0] + 1:])
+    if loop.orelse:
+        raise TranslationError('for ... else')
+    if not (isinstance(loop.iter, ast.Name) and ptypes.get(loop.iter.id) in (LIST, PAIRS)):
+        raise TranslationError(f'loop over {ast.unparse(loop.iter)}: only a parameter that is a list of ints / pairs of ints')
+    elem = LIST_ELEM[ptypes[loop.iter.id]]
+    if elem == INT and isinstance(loop.target, ast.Name):
+        targets = [loop.target.id]
+    elif elem == TUP and isinstance(loop.target, ast.Tuple) and len(loop.target.elts) == 2 and all(isinstance(x, ast.Name) for x in loop.target.elts):
+        targets = [x.id for x in loop.target.elts]
+    else:
+        raise TranslationError(f'loop target {ast.unparse(loop.target)} for elements of type {elem}')
+    all_args = [a.arg for a in fn.args.args]
+    if len(set(targets)) != len(targets) or set(targets) & (set(all_args) | RESERVED):
+        raise TranslationError(f'loop variables {targets}')
+    loop_name = f'{lean_name}_loop'
+    tr.locals = declared_locals(fn, set(all_args) | set(targets))
+    if loop_name in tr.locals or loop_name in all_args or loop_name in targets:
+        raise TranslationError(f'name clash with {loop_name}')
+    # the state: one argument per local; a local the prelude does not assign unconditionally may be unbound
+    bound = set()
+    for st in prelude:
+        if isinstance(st, ast.Assign) and len(st.targets) == 1 and isinstance(st.targets[0], ast.Name):
+            bound.add(st.targets[0].id)
+        elif isinstance(st, ast.AnnAssign) and isinstance(st.target, ast.Name) and st.value is not None:
+            bound.add(st.target.id)
+    state = []
+    for name, d in tr.locals.items():
+        if name in bound:
+            state.append((name, d))
+        elif d in OPT_INNER:
+            raise TranslationError(f'Optional local {name} is not initialised before the loop')
+        else:
+            state.append((name, MAYBE(d)))
+
+    def current(env, name):
+        key = ast.dump(ast.Name(id=name, ctx=ast.Load()))
+        if key in env.narrow:
+            return env.narrow[key]
+        return env.vars.get(name, (None, UNBOUND))
+
+    def coerce(name, t, ty, sty):
+        if ty == sty:
+            return t
+        if sty in OPT_INNER and ty == NONE:
+            return 'none'
+        if sty in OPT_INNER and ty == OPT_INNER[sty]:
+            return f'(some {t})'
+        if maybe_inner(sty) is not None and ty == UNBOUND:
+            return 'none'
+        if maybe_inner(sty) is not None and ty == maybe_inner(sty):
+            return f'(some {t})'
+        raise TranslationError(f'{name}: {ty} where the loop state holds {sty}')
+
+    def call_loop(lst):
+        def end(env):
+            args = [coerce(name, *current(env, name), sty) for name, sty in state]
+            return f'{loop_name} {lst} ' + ' '.join(args + [env.vars[OUT][0]])
+        return end
+
+    def finish(env):
+        return f'some {env.vars[OUT][0]}'
+
+    def state_env(with_targets):
+        env = Env()
+        for p in params:
+            if p != loop.iter.id:          # the list being consumed is not readable inside / after the loop
+                env.vars[p] = (p, ptypes[p])
+        for name, sty in state:
+            env.vars[name] = (name, sty)
+        if with_targets:
+            for x in targets:
+                env.vars[x] = (x, INT)
+        env.vars[OUT] = ('out_', rtype)
+        return env
+
+    # main function: the prelude, then the loop from the initial state
     env = Env()
     for p in params:
         env.vars[p] = (p, ptypes[p])
-    body = Translator(rtype).block(list(fn.body), env)
-    sig = ' '.join(f'({p} : {LEAN_TY[ptypes[p]]})' for p in params)
-    return f'def {name} {sig} : Option {LEAN_TY[rtype]} :=\n{ind(body)}\n'
+    env.vars[OUT] = (f'([] : {lean_ty(rtype)})', rtype)
+    tr.in_loop, tr.on_end = False, call_loop(loop.iter.id)
+    main_body = tr.block(prelude, env)
+    tr.in_loop, tr.on_end = False, finish
+    epi = tr.block(epilogue, state_env(False))
+    tr.in_loop, tr.on_end = True, call_loop('rest_')
+    body = tr.block(list(loop.body), state_env(True))
+    pat = targets[0] if elem == INT else f'({targets[0]}, {targets[1]})'
+    snames = ', '.join([name for name, _ in state] + ['out_'])
+    sig = ' → '.join([lean_ty(ptypes[loop.iter.id])] + [lean_ty(sty) for _, sty in state] + [lean_ty(rtype), f'Option {lean_ty(rtype, True)}'])
+    psig = ' '.join(f'({p} : {lean_ty(ptypes[p])})' for p in params)
+    if len(params) != 1:
+        raise TranslationError('generator with parameters other than the list it consumes')
+    return (f'def {loop_name} : {sig}\n'
+            f'  | [], {snames} =>\n{ind(epi, 4)}\n'
+            f'  | {pat} :: rest_, {snames} =>\n{ind(body, 4)}\n\n'
+            f'def {lean_name} {psig} : Option {lean_ty(rtype, True)} :=\n{ind(main_body)}\n')
+
+
+def translate_function(src, cls, name, ptypes, rtype, lean_name=None, earlier=()):
+    """`earlier`: the FUNCS entries before this one (the functions a `cls.f(...)` call may name)"""
+    lean_name = lean_name or name
+    tree = ast.parse(src)
+    fn = find_func(tree, cls, name)
+    kind = method_kind(fn)
+    all_args = [a.arg for a in fn.args.args]
+    implicit = {'plain': [], 'staticmethod': [], 'classmethod': all_args[:1]}[kind] if cls is not None else []
+    if cls is not None and kind == 'plain':
+        raise TranslationError(f'{name}: an instance method')
+    params = all_args[len(implicit):]
+    if fn.args.posonlyargs or fn.args.kwonlyargs or fn.args.vararg or fn.args.kwarg:
+        raise TranslationError(f'{name}: parameter list outside subset')      # (defaults are fine: every argument is given)
+    if list(ptypes) != params:
+        raise TranslationError(f'{name}: parameters {params} differ from expected {list(ptypes)}')
+    if set(params) & RESERVED:
+        raise TranslationError(f'{name}: parameter names {params}')
+
+    def resolver(recv, meth):
+        if not (kind == 'classmethod' and implicit == [recv]):
+            raise TranslationError(f'call {recv}.{meth}: the receiver is not the class of a classmethod')
+        for _, ecls, ename, eptypes, ertype, elean in earlier:
+            if ecls == cls and ename == meth:
+                if method_kind(find_func(tree, cls, meth)) == 'plain':
+                    raise TranslationError(f'{recv}.{meth}: not a static / class method')
+                return elean, list(eptypes.values()), ertype
+        raise TranslationError(f'call {recv}.{meth}: not a function translated before this one')
+
+    tr = Translator(rtype, resolver)
+    if any(isinstance(n, (ast.Yield, ast.YieldFrom, ast.Await)) for n in ast.walk(fn)):
+        return translate_generator(fn, tr, params, ptypes, rtype, lean_name)
+    env = Env()
+    for p in params:
+        env.vars[p] = (p, ptypes[p])
+    body = tr.block(list(fn.body), env)
+    sig = ' '.join(f'({p} : {lean_ty(ptypes[p])})' for p in params)
+    return f'def {lean_name} {sig} : Option {lean_ty(rtype, True)} :=\n{ind(body)}\n'
 
 
 def generate(repo):
@@ -366,17 +781,18 @@ def generate(repo):
                 errors.append(f'constant {cname}: source says {found}, translator assumes {cval}')
     except (OSError, SyntaxError) as ex:
         errors.append(f'constants: {ex}')
-    for path, cls, name, ptypes, rtype in FUNCS:
+    for i, (path, cls, name, ptypes, rtype, lean_name) in enumerate(FUNCS):
         try:
             src = open(os.path.join(repo, path)).read()
             out.append(f'-- {path} :: {(cls + ".") if cls else ""}{name}')
-            out.append(translate_function(src, cls, name, ptypes, rtype))
+            out.append(translate_function(src, cls, name, ptypes, rtype, lean_name,
+                                          [f for f in FUNCS[:i] if f[0] == path]))
         except (TranslationError, SyntaxError, OSError) as ex:
             errors.append(f'{name}: {ex}')
             # keep the module well-formed so that unrelated bridge lemmas still build
-            sig = ' '.join(f'({p} : {LEAN_TY[t]})' for p, t in ptypes.items())
+            sig = ' '.join(f'({p} : {lean_ty(t)})' for p, t in ptypes.items())
             out.append(f'-- TRANSLATION FAILED: {ex}')
-            out.append(f'def {name} {sig} : Option {LEAN_TY[rtype]} := none\n')
+            out.append(f'def {lean_name} {sig} : Option {lean_ty(rtype, True)} := none\n')
     out.append('end SF.Gen')
     return '\n'.join(out) + '\n', errors
 
@@ -385,11 +801,17 @@ def main():
     ap = argparse.ArgumentParser()
     ap.add_argument('--repo', default='/repo')
     ap.add_argument('--out', default=os.path.join(os.path.dirname(os.path.dirname(os.path.abspath(__file__))), 'lean', 'SFModel', 'Gen'))
+    ap.add_argument('--check', action='store_true', help='do not write: rc 1 on a translation error or if the file on disk differs')
     a = ap.parse_args()
     text, errors = generate(a.repo)
     os.makedirs(a.out, exist_ok=True)
     target = os.path.join(a.out, 'Slice.lean')
     old = open(target).read() if os.path.exists(target) else None
+    if a.check:
+        for e in errors:
+            print('py2lean: TRANSLATION-ERROR', e)
+        print('py2lean: up to date' if old == text else f'py2lean: {target} differs from the translation of the current source')
+        return 1 if errors or old != text else 0
     if old != text:
         with open(target, 'w') as f:
             f.write(text)
